@@ -1,1 +1,8 @@
-import Urandom.Model.Word
+-- root of the library: every property module (and through them the models and lemmas)
+import Urandom.Props.C01
+import Urandom.Props.C04
+import Urandom.Props.C05
+import Urandom.Props.C06
+import Urandom.Props.C07
+import Urandom.Props.C11
+import Urandom.Props.C13
